@@ -25,7 +25,9 @@ case = {'main': [step..], 'other': [step..], 'vars': [[k, data]..], 'dict_in': [
         'shortcut': bool, 'threads': None | {'schedules': [[0,1,1,0..]..]},
         'parser': None | 'list' | 'keys' | 'keyvaluepairs' | 'string'   (context_parser of main),
         'sc_parser_args': None | [str..]   (config.shortcuts[..]['parser_args'], needs shortcut),
-        'args_in': None | [str..]          (args_in the caller passes on every run of main)}
+        'args_in': None | [str..]          (args_in the caller passes on every run of main),
+        'vars_yaml': bool   config.vars built by ruamel's round-trip loader from yaml text, as
+                            Config.init() does for a config file (CommentedMap/Seq/Set), else plain}
 Strings and bools only come from context parsers; observations encode them as ints (enc)
 - they are immutable scalars, so only their value matters to the heap model.
 """
